@@ -46,6 +46,9 @@ func main() {
 		{Cfg: mk("4x1-late-polka", one, netsim.Config{Byz: []int{3}, Driver: "late-polka"}), Bound: b - 1},
 		{Cfg: mk("4x1-two-heights", one, netsim.Config{Byz: []int{3}, ByzMenu: false, TargetHeight: 2}), Bound: b - 1},
 		{Cfg: mk("4x1-restarts", one, netsim.Config{Byz: []int{3}, Restarts: true, NoByzMenu: true, TargetHeight: 2}), Bound: b - 1},
+		// the validator set changes while the chain runs: validator 0 is re-powered after height 1 (in force from height 3),
+		// the Byzantine validator is removed after height 2 (in force from height 4)
+		{Cfg: mk("4x1-valset-change", one, netsim.Config{Byz: []int{3}, NoByzMenu: true, TargetHeight: 5, ValScript: map[uint64][]int64{1: {3, 1, 1, 1}, 2: {3, 1, 1, 0}}}), Bound: b - 1},
 		{Cfg: mk("2111-byz-small", []int64{2, 1, 1, 1}, netsim.Config{Byz: []int{3}}), Bound: b - 1},
 		{Cfg: mk("3331-byz-small", []int64{3, 3, 3, 1}, netsim.Config{Byz: []int{3}}), Bound: b - 1},
 	}
@@ -72,6 +75,12 @@ func main() {
 		if !strings.HasPrefix(w.Outcome, "done") {
 			kind := strings.SplitN(w.Outcome, " ", 2)[0]
 			w.Violate("C04:no-progress:"+kind, -1, "after the adversarial prefix the synchronous schedule does not bring every correct node to height %d: %s", w.Cfg.TargetHeight, w.Outcome)
+		}
+		if w.Cfg.ValScript != nil && strings.HasPrefix(w.Outcome, "done") {
+			// vacuity guard of the validator-set scenario: the changes must have come into force
+			if st := w.Nodes[w.Correct[0]].State(); st.Validators.Size() != 3 || st.Validators.TotalVotingPower() != 5 {
+				w.Violate("C04:harness-valset-unchanged", -1, "the scripted validator-set changes are not in force at the end: %d validators, total power %d", st.Validators.Size(), st.Validators.TotalVotingPower())
+			}
 		}
 		if !w.DriverOK {
 			w.Violate("C04:driver-derailed", -1, "the scripted prefix %q could not be followed", w.Cfg.Driver)
